@@ -7,12 +7,15 @@
     * `printedDoc` — the document `to_string` denotes IN PRINTING ORDER (schema block, directive definitions sorted by
       name, type definitions sorted by name): `schemaToDoc` of the schema with its lists sorted as the printer sorts them.
 -/
-import PyGqlModel.SdlPrint
+import PyGqlModel.SdlPrintT
 import PyGqlModel.ParseText
+import PyGqlModel.Spec.Grammar
+import PyGqlModel.Spec.Lexical
+import PyGqlModel.Spec.BlockStringSpec
 namespace PyGql.SdlText
 open PyGql PyGql.Ast PyGql.Sdl PyGql.SdlPrint
 
-def T (s : String) : Text := textOfString s
+abbrev T (s : String) : Text := SdlPrintT.T s
 def nameOf (s : String) : Name := ⟨T s, none⟩
 def namedOf (s : String) : NamedType := ⟨nameOf s, none⟩
 
@@ -88,5 +91,102 @@ def parseSdlText (text : String) : Option Document :=
 /-- the document `to_string` denotes, in the order the printer writes it -/
 def printedDoc (s : SchemaD) : Doc :=
   schemaToDoc { s with directives := sortBy (·.name) s.directives, types := sortBy (·.name) s.types }
+
+
+/-- the same for the text of the total model -/
+def parseSdlTextT (text : Text) : Option Document :=
+  Parse.parseText { noLocation := true, allowTypeSystem := true } text
+
+/-! ### `printTextWF`: the LEXICAL well-formedness a schema needs so that its printed text denotes it -/
+
+open PyGql.SdlPrintT in
+/-- a name is a `Name` lexeme -/
+def nameOK (n : String) : Bool := Spec.Lexical.isName (T n)
+
+def tyOK : Ty → Bool
+  | .named n => nameOK n
+  | .list t => tyOK t
+  | .nonNull t => tyOK t && !t.isNonNull
+
+mutual
+/-- a printed literal consists of lexemes of its class -/
+def litOK : Lit → Bool
+  | .null => true
+  | .int v _ => Spec.Lexical.isIntValue (T v)
+  | .float v _ => Spec.Lexical.isFloatValue (T v)
+  | .str _ => true
+  | .bool _ => true
+  | .enum v => nameOK v && Spec.notBoolNull (T v)
+  | .list l => litsOK l
+  | .obj fs => fieldsOK fs
+def litsOK : List Lit → Bool
+  | [] => true
+  | v :: vs => litOK v && litsOK vs
+def fieldsOK : List (String × Lit) → Bool
+  | [] => true
+  | (k, v) :: fs => nameOK k && litOK v && fieldsOK fs
+end
+
+/-- indentation of a line / blank line, by GraphQL white space (space, tab) -/
+def lineIndent (l : Text) : Nat := (l.takeWhile Spec.isWhiteSpace).length
+def lineBlank (l : Text) : Bool := l.all Spec.isWhiteSpace
+/-- smallest indentation over the non-blank lines is 0 (`none`: no non-blank line) -/
+def minIndentZero (ls : List Text) : Bool := (ls.filter (fun l => !lineBlank l)).any (fun l => lineIndent l == 0)
+
+/-- a description survives `print_description` at the given indentation: block-string characters without CR, no line
+    longer than the wrap width, first and last line not blank, and — by layout — no trailing backslash in the one-line
+    form `"""x"""` (finding H5), smallest indentation 0 over the lines that the layout indents -/
+def descTextOK (indentLen : Nat) (d : String) : Bool :=
+  let t := T d
+  let lines := SdlPrintT.splitLF t
+  let first := lines.headD []
+  let oneLine := lines.length == 1 && first.length < 70 && !(first.getLast? == some 34)
+  let lead := first.length > (SdlPrintT.lstrip first).length
+  !t.isEmpty && t.all (fun c => (32 ≤ c || c == 9 || c == 10)) &&
+  lines.all (fun l => l.length ≤ 120 - indentLen) &&
+  !lineBlank first && !lineBlank (lines.getLastD []) &&
+  (if oneLine then !(first.getLast? == some 92)
+   else if lead then (lines.length == 1 || minIndentZero (lines.drop 1))
+   else minIndentZero lines)
+
+def descOKT (indentLen : Nat) (d : Option String) : Bool :=
+  match d with | some x => descTextOK indentLen x | none => true
+
+def argOKT (s : SchemaD) (indentLen : Nat) (a : ArgD) : Bool :=
+  nameOK a.name && tyOK a.type && descOKT indentLen a.desc &&
+  (if a.hasDefault then (match SdlPrint.valueLit s SdlPrint.valueFuel a.default a.type with | some l => litOK l | none => false) else true)
+
+def fieldOKT (s : SchemaD) (w : Nat) (f : FieldD) : Bool :=
+  nameOK f.name && tyOK f.type && descOKT w f.desc && f.args.all (argOKT s (2 * w))
+
+def enumValOKT (w : Nat) (v : EnumValD) : Bool :=
+  nameOK v.name && Spec.notBoolNull (T v.name) && descOKT w v.desc
+
+def typeOKT (s : SchemaD) (w : Nat) (t : TypeD) : Bool :=
+  nameOK t.name && descOKT 0 t.desc &&
+  (match t.kind with
+   | .scalar => true
+   | .object => !t.fields.isEmpty && t.fields.all (fieldOKT s w) && t.interfaces.all nameOK
+   | .interface => !t.fields.isEmpty && t.fields.all (fieldOKT s w)
+   | .union => !t.members.isEmpty && t.members.all nameOK
+   | .enum => !t.values.isEmpty && t.values.all (enumValOKT w)
+   | .input => !t.inputFields.isEmpty && t.inputFields.all (argOKT s w))
+
+def directiveOKT (s : SchemaD) (w : Nat) (d : DirectiveD) : Bool :=
+  nameOK d.name && descOKT 0 d.desc && d.args.all (argOKT s w) && !d.locations.isEmpty &&
+  d.locations.all (fun l => nameOK l && Generated.ParserTables.directiveLocations.contains (T l))
+
+def rootOKT (r : Option String) : Bool := match r with | some n => nameOK n | none => true
+
+/-- **printTextWF** — the lexical conditions under which the printed text denotes the schema: the indent is made of
+    spaces / tabs and descriptions are printed; every name is a `Name` lexeme (enum values not `true`/`false`/`null`,
+    directive locations from the table); type expressions have no `!!`; printed default values exist and consist of
+    number / name lexemes; object, interface, enum, input and union types have at least one member; every description
+    survives the printer's layout at its depth (`descTextOK`). -/
+def printTextWF (o : SdlPrintT.OptsT) (s : SchemaD) : Bool :=
+  o.descriptions && o.indent.all (fun c => c == 32 || c == 9) &&
+  s.types.all (typeOKT s o.indent.length) && s.directives.all (directiveOKT s o.indent.length) &&
+  rootOKT s.query && rootOKT s.mutation && rootOKT s.subscription &&
+  (!s.types.isEmpty || !s.directives.isEmpty || SdlPrint.needsSchemaBlock s)
 
 end PyGql.SdlText
